@@ -7,6 +7,7 @@ CONSTANTS RF1 = {1, 2, 3, 4, 5}
           Outcomes = {"ok", "conflict", "unavailable", "notready"}
           Outcomes2 = {"ok", "conflict", "unavailable"}
           ReplThresholdIsQuorum = FALSE
+          StaleMapReused = FALSE
           WithTimeout = FALSE
           CaseRF1 = {1, 2, 3, 4, 5, 6}
           CaseRFLocal = {1, 2, 3, 4}
